@@ -88,3 +88,13 @@ Example C16_nonvacuous :
   zwfold weighted_descr [zcomp_fun (false, [1; 2], 3); zcomp_fun (true, [1; 1], 0); zcomp_fun (false, [5; 0], -1)]%Z
          [0; -3; 1048576]%Z [2; -7]%Z = (-3 * 53 + 1048576 * 9)%Z.
 Proof. vm_compute. reflexivity. Qed.
+
+(* "...and it can be optimised wherever a plain Function can": every attribute that the bundled optimizers, the Optimizer
+   base class and Opytimizer read on the objective they are given (regenerated on every run from opytimizer/optimizers/*.py,
+   core/optimizer.py and opytimizer.py by the fail-closed audit of translate/t4_weighted.py: the objective is only passed on,
+   stored, formatted or has an attribute read) is a public attribute of BOTH classes -- no optimizer reaches into the
+   private state of Function, which WeightedFunction does not share -- and `pointer` is among them *)
+Theorem C16_optimizers_use_only_the_shared_interface :
+  forallb (fun a => existsb (String.eqb a) function_iface && existsb (String.eqb a) weighted_iface) function_uses = true /\
+  existsb (String.eqb "pointer") function_uses = true.
+Proof. split; vm_compute; reflexivity. Qed.
